@@ -5,7 +5,8 @@ PROP = dict(
     extract=["editor"],
     lean_targets=["Chewing.Props.C05"],
     runs=[dict(bin="comp"), dict(bin="editor"),
-          dict(bin="editor", args=["--script", "c05"], tag="editor-c05-overshoot")],
+          dict(bin="editor", args=["--script", "c05"], tag="editor-c05-overshoot"),
+          dict(bin="capi_props", tag="capi_props", args=["--histories", "300", "--calls", "40"], args_thorough=["--histories", "6000", "--calls", "40"])],
     scope=comp_scope("cedc", "ed"),
     level="proof",
     exhaustive=False,
@@ -13,7 +14,10 @@ PROP = dict(
          "forwarding probe) or one public operation of the real Editor (`ed` records: keys in all four states, API calls, "
          "option/layout/engine changes; generated histories, plus scripted histories (run editor-c05-overshoot) in which one "
          "step overshoots auto_commit_threshold by two or more: a two-character easy-symbol expansion at a full buffer, the "
-         "limit lowered by >= 2 in mid-composition followed by editing keys; and an editing sweep over every cursor position), recomputed by the model from the implementation's own full "
+         "limit lowered by >= 2 in mid-composition followed by editing keys; an editing sweep over every cursor position; and "
+         "candidate lists open under a mode / option change - CapsLock, Shift-Space, set_editor_options with the language mode "
+         "(= chewing_set_ChiEngMode) or the character form changed - followed by every later site that restores a saved "
+         "cursor: symbol-table insert, Esc from another list, a choice, cancel_selecting), recomputed by the model from the implementation's own full "
          "pre-state and compared on the complete post-state; distinct = distinct record text",
     trusted_base=["no kernel enumeration: all theorems are structural (induction over operation lists / histories, case "
                   "analysis over the arms of the state machine, simp/omega over lists)",
@@ -48,7 +52,14 @@ MANIFEST = dict(
          "tryAutoCommit_total_linked and, in Props/C18.lean, bounded_after_key_linked and buffer_bounded_along (len <= threshold "
          "in Entering is an invariant of every key history) with no tiling premise. Tie: per-step correspondence "
          "of both models with the real code from the implementation's own pre-state, plus a shadow list/cursor oracle "
-         "written from the property text evaluated on every step of the real editor.",
+         "written from the property text evaluated on every step of the real editor, including a shadow FRAME per open "
+         "candidate list kept across steps (a list left without choosing, however it is closed, gives back the buffer and the "
+         "cursor of the moment it was opened; a symbol chosen from the backquote symbol table goes in exactly at that cursor "
+         "and the cursor advances by one; a chosen phrase moves no symbol and restores the cursor, one further with "
+         "auto_shift_cursor; a replacing symbol changes one position) - a saved cursor that is never restored (seeded change: "
+         "CapsLock closing the list without cancel_selecting) is reported with the key history (stats c05_list_frames_*, "
+         "c05_after_list_closed_by_or_under_mode_change_*). "
+         "C API (round 2, run capi_props): generated key/API histories (every chewing_handle_* handler incl. Default with all printable characters and non-characters, chewing_cand_*, option setters, buffer calls; three kinds of data directory) are driven through a C context and in lock-step through a twin chewing::editor::Editor built over the same data; after every call every C getter is compared with the twin's Rust getter (by-design differences modelled one by one: static vs heap strings, stateful Enumerate iterators, legacy zuin_*, chewing_ack) and this property's statement is evaluated on the C observations before/after the call; a difference or a failing statement is an oracle verdict with the history (FX2: the handlers narrowed the int key with `as u8`, repaired by fix a8c8390).",
     note="Trusted: Lean kernel (axioms propext, Classical.choice, Quot.sound only), the harness and the compiled model "
          "driver, the read-only snapshot hook and the guarded forwarding probe for the crate-private CompositionEditor. "
          "bounded_after_key is conditional on the conversion answer tiling the buffer (C03); the linked form "
